@@ -16,6 +16,11 @@ def norm(item):
         return ("err", item["err"].get("msg"))
     return ("?", repr(item))
 
+# phrases the search library refuses or treats specially (dangling or leading upper-case AND / OR / NOT, only-excluding phrases): as an
+# expression of its own each yields a located lookup error or a miss - and must leave nothing behind for its neighbours
+REFUSED = ["earth OR", "NOT pi", "OR", "NOT", "mercury NOT", "OR mercury", "earth AND AND moon", "NOT finland", "NOT NOT a", "mass NOT NOT",
+           "earth radius OR", "AND earth", "zzqqxx", "population zzzz"]
+
 def stage(acc, d, texts, rng, n, pid, build_kind, kmax=4, descs=False):
     """texts: expression texts (without the outer parentheses). Returns the number of combined queries judged."""
     texts = [t for t in dict.fromkeys(texts) if t and len(t) < 400]
@@ -51,6 +56,11 @@ def stage(acc, d, texts, rng, n, pid, build_kind, kmax=4, descs=False):
         if fails and rng.random() < 0.5:
             # a failing expression in front of (or between) expressions that succeed
             pick[rng.randrange(k - 1)] = rng.choice(fails)
+        if rng.random() < 0.35:
+            # the SAME expression again later in the query (A, B, A): whatever a query remembers about an expression or a phrase
+            # (a memo entry made before the lookup failed, seed C11-h) is asked for again
+            i = rng.randrange(k - 1)
+            pick[rng.randrange(i + 1, k)] = pick[i]
         sep = rng.choice(SEPS)
         combos.append((pick, sep.join("(" + t + ")" for t in pick)))
     try:
